@@ -113,6 +113,9 @@ pub struct Recorder {
     /// where the workload can legitimately leave the decimal range; checks whose generators
     /// keep every required value inside it switch this off, so such a panic is a violation.
     pub excuse_decimal_overflow: bool,
+    /// sub-inputs executed inside the current case beyond the first (a case may run many inputs)
+    marks_in_case: u64,
+    extra_evaluations: u64,
 }
 
 impl Recorder {
@@ -130,6 +133,8 @@ impl Recorder {
             cur_file,
             want_samples: 2,
             excuse_decimal_overflow: true,
+            marks_in_case: 0,
+            extra_evaluations: 0,
         }
     }
 
@@ -170,11 +175,16 @@ impl Recorder {
 
     /// Mark a case (identified by a content hash) as non-trivial by the check's rule.
     pub fn nontrivial(&mut self, content: &str) {
-        self.nontrivial.push(fnv64(content.as_bytes()));
+        self.nontrivial_hash(fnv64(content.as_bytes()));
     }
 
     pub fn nontrivial_hash(&mut self, h: u64) {
         self.nontrivial.push(h);
+        self.marks_in_case += 1;
+        if self.marks_in_case > 1 {
+            // one case index that runs several inputs counts each of them as an evaluation
+            self.extra_evaluations += 1;
+        }
     }
 
     pub fn skip(&mut self) {
@@ -429,6 +439,7 @@ pub fn worker_main(check: &dyn Check, tier: Tier, seed: u64, start: u64, end: u6
     for idx in start..end {
         emit_line(&mut out, &json!({"t": "B", "i": idx}));
         rec.index = idx;
+        rec.marks_in_case = 0;
         rec.op("case", "");
         set_case_timer(limit);
         let before = rec.violations.len();
@@ -469,13 +480,14 @@ pub fn worker_main(check: &dyn Check, tier: Tier, seed: u64, start: u64, end: u6
             let hashes: Vec<String> = rec.nontrivial.drain(..).map(|h| format!("{:x}", h)).collect();
             emit_line(
                 &mut out,
-                &json!({"t": "S", "n": evaluated, "skipped": rec.skipped, "counters": rec.counters,
+                &json!({"t": "S", "n": evaluated + rec.extra_evaluations, "skipped": rec.skipped, "counters": rec.counters,
                     "nontrivial": hashes, "samples": rec.samples}),
             );
             rec.counters.clear();
             rec.samples.clear();
             rec.want_samples = 0;
             rec.skipped = 0;
+            rec.extra_evaluations = 0;
             evaluated = 0;
             since_flush = 0;
         }
